@@ -73,6 +73,11 @@ CHECKS = {
         "note": TRUST + " Not proved: the whole-file bridge (decode of an encoded abstract disk) -- it is checked by execution (ii, iii).",
         "design": "DESIGN.md section 5 C10",
     },
+    "C15": {
+        "text": "Coq: the read-only recovery used for the migration source writes nothing for any image and outcome (source untouched); a successful migration spec means no destination existed, the source is v1/v2 with a successful read-only recovery, and the destination record list is exactly the recovered keys with identical timestamps and absolute expiries (TTL filtering off, so expired newest generations are copied and no older value can reappear). Tie: the real migrate() on engine-built and damaged legacy images vs migrate_spec of the source image (outcome, report, destination contents read back by the real store), with an oracle for non-destructiveness (source hash, no publication or temporary on failure, existing destination untouched, v3 result).",
+        "note": TRUST + " Filesystem operations (hard_link publication, rollback, directory sync) are observed, not modelled; record-by-record verification inside migrate() is covered only through its outcome.",
+        "design": "DESIGN.md section 5 C15",
+    },
     "C16": {
         "text": "Coq over Model/Cache.v (bucketed CLOCK cache with murmur3 bucket choice): after every operation of every sequence the reported memory equals the total size of the held entries and there is at most one entry per key; an explicit remove is never followed by a hit. Tie: the public ClockCache API vs the model on random sequences with evictions (every hit/miss, memory_usage, eviction count, watermarks after each call) plus an implementation-side oracle (no hit after remove, usage at or below the low watermark after eviction, zero after clear). Transparency (results identical with the cache on and off; entries served only for the exact generation) is decided by execution: the C01 call sequences in all 12 persistent configurations, cache on and off, must equal the same reference map with offloaded and cached values.",
         "note": TRUST + " Not proved: the eviction post-conditions (low watermark reached; referenced entries spared when unreferenced ones suffice) and transparency -- both only by execution; concurrent reader/writer interleavings are not explored by this check.",
